@@ -3,9 +3,9 @@ package main
 import (
 	"fmt"
 	"go/ast"
-	"go/types"
 	"go/parser"
 	"go/token"
+	"go/types"
 	"os"
 	"os/exec"
 	"path/filepath"
